@@ -43,7 +43,8 @@ theorem common_default (tbl : List (String × String)) (cpu : Nat) (w : Option N
       intro y hy
       have := h y (by simp [hy])
       simp [this, hx]
-    simp only [hr, if_true, hx]
+    subst hx
+    simp [hr]
 
 /-- …and collections with differing defaults are rejected (the choice is never made silently) -/
 theorem differing_defaults_rejected (tbl : List (String × String)) (cpu : Nat) (w : Option Nat) (a b : Nat) (hab : a ≠ b)
@@ -58,7 +59,7 @@ theorem differing_defaults_rejected (tbl : List (String × String)) (cpu : Nat) 
 /-- every documented name of a local scheduler is in the table (names are looked up in lower case) -/
 theorem local_names_resolve :
     ∀ n ∈ ["sync", "synchronous", "single-threaded", "threads", "threading", "processes", "multiprocessing"],
-      ∃ f, lookup namedSchedulers n = some f := by decide
+      (lookup namedSchedulers n).isSome = true := by decide
 
 /-- the aliases of one scheduler resolve to the same function -/
 theorem aliases_agree :
